@@ -49,6 +49,9 @@ pub struct Case {
     pub entry: Entry,
     pub execs: Vec<Exec>,
     pub real_randomstate_smoke: bool,
+    /// text entries: these two texts instead of the ones built from `seq`
+    #[serde(default)]
+    pub raw: Option<(String, String)>,
 }
 
 /// Strictly increasing injective map of the symbols into u64.
@@ -207,7 +210,7 @@ pub struct Outcome {
 }
 
 /// One execution under the currently installed hasher configuration.
-fn run_once(seq: &SeqCase, entry: Entry, ex: &Exec) -> Result<Outcome, String> {
+fn run_once(seq: &SeqCase, entry: Entry, ex: &Exec, raw: Option<&(String, String)>) -> Result<Outcome, String> {
     let alg = seq.alg.to();
     guarded(|| match entry {
         Entry::Slices | Entry::Distinct => {
@@ -345,8 +348,12 @@ fn run_once(seq: &SeqCase, entry: Entry, ex: &Exec) -> Result<Outcome, String> {
             // the texts sit at drawn offsets inside their allocations (the
             // reference execution: at the start)
             let (pad_o, pad_n) = (((ex.relabel_seed >> 20) % 16) as usize, ((ex.relabel_seed >> 24) % 16) as usize);
-            let obuf = format!("{}{}", "#".repeat(pad_o), build_text(entry, seq.old_core()));
-            let nbuf = format!("{}{}", "#".repeat(pad_n), build_text(entry, seq.new_core()));
+            let (told, tnew) = match raw {
+                Some((o, n)) => (o.clone(), n.clone()),
+                None => (build_text(entry, seq.old_core()), build_text(entry, seq.new_core())),
+            };
+            let obuf = format!("{}{}", "#".repeat(pad_o), told);
+            let nbuf = format!("{}{}", "#".repeat(pad_n), tnew);
             let ot = obuf[pad_o..].to_string();
             let nt = nbuf[pad_n..].to_string();
             let (ov, nv): (&str, &str) = (&obuf[pad_o..], &nbuf[pad_n..]);
@@ -423,6 +430,75 @@ fn run_once(seq: &SeqCase, entry: Entry, ex: &Exec) -> Result<Outcome, String> {
 /// Subrange shift: Slices entry diffs the extracted slices, so its ops are
 /// relative to the range starts; nothing to adjust when comparing runs of the
 /// same case with each other.
+/// More than 16 000 bytes of LF-terminated lines with one to three lone CR /
+/// CRLF terminators somewhere in the middle third, and an edited copy.
+fn gen_sparse_cr_text(rng: &mut Rng) -> (String, String) {
+    let n = 2800 + rng.usize(1500);
+    let special: Vec<usize> = (0..1 + rng.usize(3)).map(|_| n / 3 + rng.usize(n / 3)).collect();
+    let mut lines: Vec<String> = (0..n)
+        .map(|i| {
+            let term = if special.contains(&i) {
+                if rng.chance(2, 3) { "\r" } else { "\r\n" }
+            } else {
+                "\n"
+            };
+            format!("l{} {}{}", i % 97, i, term)
+        })
+        .collect();
+    let old = lines.concat();
+    for _ in 0..1 + rng.usize(4) {
+        let at = rng.usize(lines.len());
+        match rng.below(3) {
+            0 => {
+                lines.remove(at);
+            }
+            1 => lines.insert(at, "new line\n".to_string()),
+            _ => lines[at] = format!("changed {}\n", at),
+        }
+    }
+    (old, lines.concat())
+}
+
+/// Lines whose content length is L - d for every multiple L of 4096 up to
+/// 16 * 4096 (and a few powers of two) and d in 0..=3, with CRLF / CR / LF.
+fn gen_block_boundary_lines(rng: &mut Rng) -> (String, String) {
+    let mut lines: Vec<String> = Vec::new();
+    let mut push = |rng: &mut Rng, len: usize, term: &str| {
+        let mut s = String::with_capacity(len + 2);
+        let c = (b'a' + rng.below(26) as u8) as char;
+        for _ in 0..len {
+            s.push(c);
+        }
+        s.push_str(term);
+        lines.push(s);
+    };
+    // systematically: for every multiple of 4096 up to 2^16 a line whose CR
+    // (of a CRLF) is the last byte of such a block, and one drawn neighbour
+    for k in 1..=16usize {
+        push(rng, 4096 * k - 1, "\r\n");
+        let d = rng.usize(4);
+        let term = *rng.pick(&["\r\n", "\r", "\n"]);
+        push(rng, 4096 * k - d, term);
+    }
+    // and a few powers of two
+    for _ in 0..3 {
+        let l = 1usize << (6 + rng.usize(11));
+        let d = rng.usize(4);
+        let term = *rng.pick(&["\r\n", "\r", "\n"]);
+        push(rng, l - d, term);
+    }
+    let old = lines.concat();
+    let at = rng.usize(lines.len());
+    match rng.below(3) {
+        0 => lines.insert(at, "inserted\r\n".to_string()),
+        1 => {
+            lines.remove(at);
+        }
+        _ => lines[at].insert(0, 'X'),
+    }
+    (old, lines.concat())
+}
+
 pub struct C20;
 
 const F_KEYED: usize = 0;
@@ -452,7 +528,7 @@ impl C20 {
         let (reference, ref_order) = {
             let _g = SimGuard::new(None, (0, 0));
             let _ = similar::verif::take_order();
-            let r = run_once(seq, case.entry, &reference_exec).map_err(|m| Fail {
+            let r = run_once(seq, case.entry, &reference_exec, case.raw.as_ref()).map_err(|m| Fail {
                 clause: "c20.panic",
                 detail: format!("reference: {}", m),
             })?;
@@ -476,7 +552,7 @@ impl C20 {
             let _g = SimGuard::new(None, ex.hasher);
             for rep in 0..ex.repeats.max(1) {
                 let _ = similar::verif::take_order();
-                let r = run_once(seq, case.entry, ex).map_err(|m| Fail {
+                let r = run_once(seq, case.entry, ex, case.raw.as_ref()).map_err(|m| Fail {
                     clause: "c20.panic",
                     detail: format!("exec={} rep={}: {}", ei, rep, m),
                 })?;
@@ -554,6 +630,7 @@ impl C20 {
         if case.real_randomstate_smoke {
             let seq2 = seq.clone();
             let entry = case.entry;
+            let raw2 = case.raw.clone();
             let got = std::thread::spawn(move || {
                 similar::verif::set_hasher(None);
                 run_once(&seq2, entry, &Exec {
@@ -561,7 +638,7 @@ impl C20 {
                     relabel: 0,
                     relabel_seed: 0,
                     repeats: 1,
-                })
+                }, raw2.as_ref())
             })
             .join();
             out.faults[F_REAL_RANDOMSTATE] += 1;
@@ -623,7 +700,7 @@ impl Prop for C20 {
             Tier::Thorough => 400_000,
         }
     }
-    fn gen(&self, rng: &mut Rng, tier: Tier, _idx: u64) -> Case {
+    fn gen(&self, rng: &mut Rng, tier: Tier, idx: u64) -> Case {
         let size = match rng.weighted(&[50, 35, 15]) {
             0 => Size::Small,
             1 => Size::Medium,
@@ -695,11 +772,28 @@ impl Prop for C20 {
                 repeats: if rng.chance(1, 4) { 2 } else { 1 },
             })
             .collect();
+        // at fixed places of every batch: hand-shaped texts for the twin
+        // tokenizers (a long text with a lone CR far from both ends; lines
+        // whose length sits at a multiple of 4096 or a power of two, minus
+        // 0..3, with every kind of terminator)
+        let mut raw = None;
+        let mut entry = entry;
+        let mut execs: Vec<Exec> = execs;
+        if idx % 2500 == 77 && !huge {
+            let (o, n) = if rng.chance(1, 2) { gen_sparse_cr_text(rng) } else { gen_block_boundary_lines(rng) };
+            raw = Some((o, n));
+            entry = if rng.chance(3, 4) { Entry::TextLines } else { Entry::TextWords };
+            execs.truncate(4);
+            for e in execs.iter_mut() {
+                e.relabel = if rng.chance(1, 4) { 5 } else { 0 };
+            }
+        }
         Case {
             seq,
             entry,
             execs,
             real_randomstate_smoke: rng.chance(1, 16),
+            raw,
         }
     }
     fn exec(&self, case: &Case) -> RunOut {
